@@ -36,6 +36,19 @@ def main():
         with open(os.path.join(d, m["file"]), "w") as f:
             f.write(m["src"])
         root = d
+    elif seed.startswith("b:"):
+        from selftest import benign
+        v = [x for x in benign.all_benign("/repo") if x[0] == seed[2:]]
+        if not v:
+            print("no such benign variant; known prefixes:", sorted({x[0].split(":")[0] for x in benign.all_benign("/repo")}))
+            return
+        d = tempfile.mkdtemp(prefix="try_rule_")
+        shutil.copytree("/repo/mofun", os.path.join(d, "mofun"), ignore=shutil.ignore_patterns("__pycache__"))
+        with open(os.path.join(d, v[0][1]), "w") as f:
+            f.write(v[0][2])
+        if os.environ.get("SHOWDIFF"):
+            subprocess.run(["diff", "-u", os.path.join("/repo", v[0][1]), os.path.join(d, v[0][1])])
+        root = d
     elif seed != "-":
         patch = os.path.abspath(seed) if os.path.exists(seed) else os.path.join(ROOT, "seeded", seed, "patch.diff")
         d = tempfile.mkdtemp(prefix="try_rule_")
